@@ -13,6 +13,11 @@ class FileNotFoundError(Exception):
         Exception.__init__(self, "file %s not found" % path)
 
 
+class NotTextError(Exception):
+    def __init__(self, path, reason):
+        Exception.__init__(self, "file %s is not UTF-8 text: %s" % (path, reason))
+
+
 def _get_first_existing_path(leaf, dirs):
     for directory in dirs:
         path = os.path.join(directory, leaf)
@@ -80,8 +85,11 @@ class FileProcessor(object):
             return self.files[abspath]
         self.files[abspath] = None
 
-        with codecs.open(path, 'r', encoding='utf-8') as f:
-            content = f.read()
+        try:
+            with codecs.open(path, 'r', encoding='utf-8') as f:
+                content = f.read()
+        except UnicodeDecodeError as e:
+            raise NotTextError(path, e)
         result = self.process_content(content, path, lambda leaf: self.process_leaf(leaf))
         self.files[abspath] = result
         return result
